@@ -214,7 +214,7 @@ func timeVal(r *rand.Rand, unit int64, isEnd bool) (string, string) {
 		return fmt.Sprint(base * 1e9), "unit-ns"
 	case x == 28: // far apart
 		if isEnd {
-			return fmt.Sprint((ToS + 86400*365*20) * (1e9 / unit)), "far"
+			return fmt.Sprint((ToS + 86400*365*2) * (1e9 / unit)), "far"
 		}
 		return fmt.Sprint(86400 * (1e9 / unit)), "far"
 	default:
